@@ -5,6 +5,7 @@ MCKeyNames == <<"delta", "tol">>
 MCDegrees == {"d2", "d3"}
 MCCnUpTo == [d \in MCDegrees |-> IF d = "d2" THEN {"k2"} ELSE {"k2", "k3"}]
 MCCnOrders == {"k2", "k3"}
+MCFlat == {"d2"}
 MCForms == {"physical", "center_manifold_real"}
 MCUserOpts1 == {"o1"}
 MCUserOpts2 == {"o1", "o2"}
